@@ -8,10 +8,12 @@ import (
 	"fmt"
 	cose "github.com/veraison/go-cose"
 	"io"
+	"reflect"
 	"sort"
 	"strings"
 	"time"
 	"unicode/utf8"
+	altprops "verif/alt/props"
 
 	psatoken "github.com/veraison/psatoken"
 	"verif/engine/choice"
@@ -885,6 +887,131 @@ func init() {
 			}, nil
 		}
 	}
+	// C09/C12: two registered derived profiles whose claims types have the same reflect.Type.String() ("props.ExtP2Claims")
+	for _, prop := range []string{"C09", "C12"} {
+		prop := prop
+		Scenarios[strings.ToLower(prop)+".same-name-claim-types"] = func() (choice.Scenario, func() any) {
+			return func(c *choice.Ctx) {
+				if _, _, ok := psatoken.VerifRegistryEntry(altprops.TwinName); !ok {
+					if err := psatoken.RegisterProfile(altprops.TwinProfile{}); err != nil {
+						panic(choice.HarnessError{Msg: err.Error()})
+					}
+				}
+				first := c.Choose("first-used", 2)
+				a0 := genValidOpt(c, kindP2, false, true)
+				for _, which := range []int{first, 1 - first} {
+					a := *a0
+					var ext func(x psatoken.IClaims) string
+					if which == 0 {
+						a.Canon, a.Profile = ExtP2Name, sp(ExtP2Name)
+						ext = func(x psatoken.IClaims) string {
+							if v := x.(*ExtP2Claims).Extra; v != nil {
+								return fmt.Sprint("extra=", *v)
+							}
+							return "extra=absent"
+						}
+					} else {
+						a.Canon, a.Profile = altprops.TwinName, sp(altprops.TwinName)
+						ext = func(x psatoken.IClaims) string {
+							t := x.(*altprops.ExtP2Claims)
+							s := "other=absent"
+							if t.Other != nil {
+								s = "other=" + *t.Other
+							}
+							if t.Flag != nil {
+								s += fmt.Sprint(" flag=", *t.Flag)
+							}
+							return s
+						}
+					}
+					x, err := buildBySetters(&a)
+					if err != nil {
+						c.Failf(prop+":same-name-claim-types:build", "%v", err)
+						return
+					}
+					switch t := x.(type) {
+					case *ExtP2Claims:
+						v := int64(-7)
+						t.Extra = &v
+					case *altprops.ExtP2Claims:
+						o, f := "twin", true
+						t.Other, t.Flag = &o, &f
+					default:
+						c.Failf(prop+":same-name-claim-types:type", "NewClaims(%q) returned %T", a.Canon, x)
+						return
+					}
+					tag := fmt.Sprintf("same-name-claim-types:%d-used-%v", which, map[bool]string{true: "first", false: "second"}[which == first])
+					encStats.StateStr(tag + a.String())
+					var enc []byte
+					var y psatoken.IClaims
+					if prop == "C09" {
+						if enc, err = psatoken.EncodeClaimsToCBOR(x); err == nil {
+							y, err = psatoken.DecodeClaimsFromCBOR(enc)
+						}
+					} else {
+						if enc, err = psatoken.EncodeClaimsToJSON(x); err == nil {
+							y, err = psatoken.DecodeClaimsFromJSON(enc)
+						}
+					}
+					encStats.Trans.Add(2)
+					if err != nil {
+						c.Failf(prop+":same-name-claim-types:error:"+tag, "%v", err)
+						continue
+					}
+					if fmt.Sprintf("%T", y) != fmt.Sprintf("%T", x) || reflect.TypeOf(y) != reflect.TypeOf(x) {
+						c.Failf(prop+":same-name-claim-types:decoded-type:"+tag, "%T (%v)", y, reflect.TypeOf(y).PkgPath())
+						continue
+					}
+					if g1, g2 := getterVector(x)+" "+ext(x), getterVector(y)+" "+ext(y); g1 != g2 {
+						c.Failf(prop+":same-name-claim-types:identity:"+tag, "the claims-set (incl. its profile's own claims) is not what was encoded\n x %s\n y %s", g1, g2)
+					}
+				}
+			}, nil
+		}
+	}
+	// C12: registered profiles whose NAME contains characters the JSON encoder escapes
+	Scenarios["c12.escaped-profile-name"] = func() (choice.Scenario, func() any) {
+		names := []string{"http://example.com/psa?variant=a&rev=2", "http://example.com/psa/it's", "http://example.com/psa?q=<1>"}
+		return func(c *choice.Ctx) {
+			name := names[c.Choose("name", len(names))]
+			if _, _, ok := psatoken.VerifRegistryEntry(name); !ok {
+				if err := psatoken.RegisterProfile(ExtProfile{name, 2}); err != nil {
+					return // not a name the register takes: nothing to check
+				}
+			}
+			a := genValidOpt(c, kindP2, false, true)
+			a.Canon, a.Profile = name, sp(name)
+			x, err := buildBySetters(a)
+			if err != nil {
+				c.Failf("C12:escaped-name:build", "%v", err)
+				return
+			}
+			if x.Validate() != nil {
+				return
+			}
+			encStats.StateStr("escaped-name" + a.String())
+			tag := fmt.Sprintf("escaped-profile-name-%d", c.Choices[0])
+			js, err := psatoken.EncodeClaimsToJSON(x)
+			if err != nil {
+				c.Failf("C12:encode-error:"+tag, "%v", err)
+				return
+			}
+			y, err := psatoken.DecodeClaimsFromJSON(js)
+			encStats.Trans.Add(2)
+			if err != nil {
+				c.Failf("C12:decode-error:"+tag, "own JSON of a registered profile named %q does not decode: %v\n%s", name, err, js)
+				return
+			}
+			if g1, g2 := getterVector(x), getterVector(y); g1 != g2 || fmt.Sprintf("%T", y) != fmt.Sprintf("%T", x) {
+				c.Failf("C12:identity:"+tag, "%T %s\n%T %s", x, g1, y, g2)
+			}
+			cb, err1 := psatoken.EncodeClaimsToCBOR(x)
+			cb2, err2 := psatoken.EncodeClaimsToCBOR(y)
+			if err1 != nil || err2 != nil || !bytes.Equal(cb, cb2) {
+				c.Failf("C12:cbor-json-cbor:"+tag, "%v %v\n%x\n%x", err1, err2, cb, cb2)
+			}
+		}, nil
+	}
 	// C12: the JSON path after prior calls that may leave something behind (single goroutine)
 	Scenarios["c12.after-prior-calls"] = func() (choice.Scenario, func() any) {
 		return func(c *choice.Ctx) {
@@ -914,9 +1041,12 @@ func init() {
 			exploreChoiceOpts(r, lp+".returned-bytes", 3, dl, 1)
 			if prop == "C12" {
 				exploreChoiceOpts(r, "c12.after-prior-calls", 2, dl, 1)
+				exploreChoiceOpts(r, "c12.escaped-profile-name", 2, dl, 1)
+				exploreChoiceOpts(r, "c12.same-name-claim-types", 1, dl, 1)
 			} else {
 				if prop == "C09" {
 					exploreChoice(r, "c09.ext-wide", -1, dl)
+					exploreChoiceOpts(r, "c09.same-name-claim-types", 1, dl, 1)
 					for kind := 0; kind < 2; kind++ {
 						exploreChoice(r, fmt.Sprintf("c09.decode-change-roundtrip.%s", kindNames[kind]), b, dl)
 						exploreChoice(r, fmt.Sprintf("c09.method-decode-after-rejected.%s", kindNames[kind]), b, dl)
